@@ -108,6 +108,8 @@ pub struct Log {
     events: Mutex<Vec<Event>>,
     /// When false, hook snapshots (PollStart/PollEnd) are not stored (they are large).
     pub keep_snapshots: bool,
+    /// Store SocketTables hook events even without snapshots (multi-connection families).
+    pub keep_tables: std::sync::atomic::AtomicBool,
     frozen: Mutex<Option<Us>>,
 }
 
@@ -117,6 +119,7 @@ impl Log {
             clock,
             events: Mutex::new(Vec::new()),
             keep_snapshots,
+            keep_tables: std::sync::atomic::AtomicBool::new(false),
             frozen: Mutex::new(None),
         })
     }
